@@ -6,8 +6,10 @@
 package main
 
 import (
+	"encoding/json"
 	"fmt"
 	"reflect"
+	"regexp"
 	"sort"
 	"strconv"
 	"strings"
@@ -90,6 +92,71 @@ func (n *fNode) coq() string {
 		it[i] = "(" + vStr(k) + ", " + n.kids[k].coq() + ")"
 	}
 	return "VRec " + vList(it)
+}
+
+// settable maps / slices of string kind (headers, key lists ...), found below the non-nil struct
+// nesting of the default configuration
+type fComplexPos struct {
+	path   []string
+	kind   string // strmap | strslice
+	opaque bool
+}
+
+func fComplex(v reflect.Value, d *sDesc, path []string, out *[]fComplexPos) {
+	switch d.Kind {
+	case "ptr":
+		if !v.IsNil() {
+			fComplex(v.Elem(), d.Elem, path, out)
+		}
+	case "struct":
+		if d.Foreign {
+			return
+		}
+		for _, f := range d.Fields {
+			fv := v.Field(f.Index)
+			if f.Squash {
+				fComplex(fv, f.T, path, out)
+				continue
+			}
+			fComplex(fv, f.T, append(append([]string(nil), path...), f.Key), out)
+		}
+	case "map":
+		if d.Elem.Kind == "leaf" && d.Elem.Leaf == "string" && d.rt.Key().Kind() == reflect.String {
+			*out = append(*out, fComplexPos{path, "strmap", strings.Contains(d.Elem.Type, "configopaque")})
+		}
+	case "slice":
+		if d.Elem.Kind == "leaf" && d.Elem.Leaf == "string" && d.rt.Kind() == reflect.Slice {
+			*out = append(*out, fComplexPos{path, "strslice", strings.Contains(d.Elem.Type, "configopaque")})
+		}
+	}
+}
+
+// fTypedAt navigates the typed configuration along mapstructure keys (through squash and pointers)
+func fTypedAt(v reflect.Value, d *sDesc, path []string) (reflect.Value, bool) {
+	for d.Kind == "ptr" {
+		if v.IsNil() {
+			return v, false
+		}
+		v, d = v.Elem(), d.Elem
+	}
+	if len(path) == 0 {
+		return v, true
+	}
+	if d.Kind != "struct" {
+		return v, false
+	}
+	for _, f := range d.Fields {
+		if f.Squash {
+			if r, ok := fTypedAt(v.Field(f.Index), f.T, path); ok {
+				return r, true
+			}
+			continue
+		}
+		if f.Key == path[0] {
+			return fTypedAt(v.Field(f.Index), f.T, path[1:])
+		}
+	}
+	return v, false
 }
 
 type fLeaf struct {
@@ -235,11 +302,55 @@ func dFaithful(t *testing.T, out *vOut, r *vRand, all []dEntryPts) {
 				yv, cs = strconv.Itoa(n)+"s", strconv.FormatInt(int64(time.Duration(n)*time.Second), 10)
 			case "string":
 				s := "s" + strconv.Itoa(r.Intn(1000))
+				if l.n.opaque {
+					s = "SECRET-" + strconv.Itoa(100000+r.Intn(900000))
+				}
 				yv, cs = s, s
 			}
 			fSet(doc, l.path, yv)
 			fSet(canon, l.path, cs)
 			written = append(written, wr{l.path, cs, fmt.Sprint(yv), l.n})
+		}
+		// maps and slices of strings (headers and the like), secrets carry a unique marker
+		type cw struct {
+			pos  fComplexPos
+			keys []string
+			vals []string
+		}
+		var cws []cw
+		var cpos []fComplexPos
+		fComplex(reflect.ValueOf(e.Def), &sDesc{Kind: "ptr", Elem: e.D}, nil, &cpos)
+		out.Stat("faithful.complex.positions", len(cpos))
+		for _, cp := range cpos {
+			if fExcluded(cp.path) || r.Intn(100) >= p+15 {
+				continue
+			}
+			w := cw{pos: cp}
+			n := 1 + r.Intn(3)
+			for k := 0; k < n; k++ {
+				v := "v" + strconv.Itoa(r.Intn(1000))
+				if cp.opaque {
+					v = "SECRET-" + strconv.Itoa(100000+r.Intn(900000))
+				}
+				w.keys = append(w.keys, []string{"Authorization", "X-Key", "x-other"}[k])
+				w.vals = append(w.vals, v)
+			}
+			if cp.kind == "strmap" {
+				m := map[string]any{}
+				for k := range w.keys {
+					m[w.keys[k]] = w.vals[k]
+				}
+				fSet(doc, cp.path, m)
+			} else {
+				var l []any
+				for _, v := range w.vals {
+					l = append(l, v)
+				}
+				fSet(doc, cp.path, l)
+			}
+			fSet(canon, cp.path, nil) // the model sees that the key is set (its value is outside the tv projection)
+			cws = append(cws, w)
+			out.Stat("faithful.complex."+cp.kind+map[bool]string{true: ".opaque", false: ""}[cp.opaque], 1)
 		}
 		if e.Name == "receivers/otlp" && r.Intn(3) == 0 { // a protocol section written empty
 			k := []string{"grpc", "http"}[r.Intn(2)]
@@ -309,6 +420,126 @@ func dFaithful(t *testing.T, out *vOut, r *vRand, all []dEntryPts) {
 				}
 			}
 		}
+		// maps / slices: typed read-back, effective configuration entry by entry
+		for _, w := range cws {
+			key := strings.Join(w.pos.path, "::")
+			tv, ok := fTypedAt(reflect.ValueOf(got), &sDesc{Kind: "ptr", Elem: e.D}, w.pos.path)
+			if !ok || tv.Len() != len(w.vals) {
+				out.Oracle("written-key-not-reflected", term+"(VRec []))", fmt.Sprintf("%s written with %d entries, typed config has %v", key, len(w.vals), tv))
+				continue
+			}
+			ev, eok := fGetAny(effMap, append([]string{e.Kind, id.String()}, w.pos.path...))
+			for k := range w.vals {
+				var typed string
+				var eff any
+				var effOK bool
+				if w.pos.kind == "strmap" {
+					mv := tv.MapIndex(reflect.ValueOf(w.keys[k]).Convert(tv.Type().Key()))
+					if mv.IsValid() {
+						typed = mv.String()
+					}
+					if em, ok := ev.(map[string]any); ok {
+						eff, effOK = em[w.keys[k]]
+					}
+				} else {
+					typed = tv.Index(k).String()
+					if el, ok := ev.([]any); ok && k < len(el) {
+						eff, effOK = el[k], true
+					}
+				}
+				if typed != w.vals[k] {
+					out.Oracle("written-key-not-reflected", term+"(VRec []))", fmt.Sprintf("%s[%s] written %s, typed config has %q", key, w.keys[k], w.vals[k], typed))
+				}
+				want := w.vals[k]
+				if w.pos.opaque {
+					want = "[REDACTED]"
+				}
+				if !eok || !effOK {
+					out.Oracle("effective-config-missing", term+"(VRec []))", fmt.Sprintf("%s[%s] absent from the effective configuration", key, w.keys[k]))
+				} else if fmt.Sprint(eff) != want {
+					kind := "effective-config-differs"
+					if w.pos.opaque {
+						kind = "effective-config-secret"
+					}
+					out.Oracle(kind, term+"(VRec []))", fmt.Sprintf("%s[%s] written %s, effective configuration has %v (expected %s)", key, w.keys[k], w.vals[k], eff, want))
+				}
+			}
+		}
+		// no secret anywhere in the effective configuration, whatever the shape it sits in
+		if js, err := json.Marshal(effMap); err == nil {
+			for _, m := range fSecretRe.FindAllString(fmt.Sprint(doc), -1) {
+				if strings.Contains(string(js), m) || strings.Contains(fmt.Sprint(effMap), m) {
+					out.Oracle("effective-config-secret", term+"(VRec []))", "the secret "+m+" written in the configuration appears in the effective configuration")
+				}
+			}
+		} else {
+			out.Oracle("effective-config", term+"(VRec []))", "effective configuration is not serialisable: "+err.Error())
+		}
+		// CEff case: the written settings as typed values (opaque flags from the types) vs the same key
+		// paths of the effective configuration.  Zero scalars are left out (omitempty may drop them).
+		{
+			ev, ob := &eNode{}, &eNode{}
+			effAt := func(path []string) (any, bool) {
+				return fGetAny(effMap, append([]string{e.Kind, id.String()}, path...))
+			}
+			for _, w := range written {
+				if w.canon == "false" || w.canon == "0" || w.canon == "" {
+					continue
+				}
+				if w.path[len(w.path)-1] == "block_on_overflow" || w.path[len(w.path)-1] == "blocking" {
+					continue // the alias rule may legitimately change the typed value (Part 4)
+				}
+				if w.n.opaque {
+					ev.put(w.path, "EOpaque "+vStr(w.canon))
+				} else {
+					ev.put(w.path, "EPlain "+vStr(w.canon))
+				}
+				x, ok := effAt(w.path)
+				ob.put(w.path, eScalar(x, ok, w.canon))
+			}
+			for _, w := range cws {
+				x, _ := effAt(w.pos.path)
+				if w.pos.kind == "strmap" {
+					idx := make([]int, len(w.keys))
+					for k := range idx {
+						idx[k] = k
+					}
+					sort.Slice(idx, func(a, b int) bool { return w.keys[idx[a]] < w.keys[idx[b]] })
+					var kv, okv []string
+					xm, _ := x.(map[string]any)
+					for _, k := range idx {
+						kv = append(kv, "("+vStr(w.keys[k])+", "+vStr(w.vals[k])+")")
+						y, ok := xm[w.keys[k]]
+						okv = append(okv, "("+vStr(w.keys[k])+", "+eScalar(y, ok, "")+")")
+					}
+					if len(xm) != len(w.keys) {
+						okv = append(okv, "("+vStr("<extra entries>")+", CNull)")
+					}
+					ev.put(w.pos.path, "EStrMap "+vBool(w.pos.opaque)+" "+vList(kv))
+					ob.put(w.pos.path, "CMap "+vList(okv))
+				} else {
+					var l, ol []string
+					xl, _ := x.([]any)
+					for k := range w.vals {
+						l = append(l, vStr(w.vals[k]))
+						if k < len(xl) {
+							ol = append(ol, eScalar(xl[k], true, ""))
+						}
+					}
+					for k := len(w.vals); k < len(xl); k++ {
+						ol = append(ol, "CNull")
+					}
+					ev.put(w.pos.path, "EStrList "+vBool(w.pos.opaque)+" "+vList(l))
+					ob.put(w.pos.path, "CList "+vList(ol))
+				}
+			}
+			if len(ev.kids) > 0 {
+				out.Case(true, "(CEff ("+ev.coq("ERec")+") ("+ob.coq("CMap")+"))")
+				out.Stat("faithful.ceff", 1)
+			}
+		}
+		// every nested validation rule of the loaded configuration is evaluated
+		dCompareValidate(out, term+"(VRec []))", cfg)
 		var ol []fLeaf
 		obs.leaves(nil, &ol)
 		for _, l := range ol {
@@ -335,6 +566,8 @@ func dFaithful(t *testing.T, out *vOut, r *vRand, all []dEntryPts) {
 	}
 }
 
+var fSecretRe = regexp.MustCompile(`SECRET-[0-9]+`)
+
 func fSameDuration(es, canon string) bool {
 	d, err := time.ParseDuration(es)
 	if err != nil {
@@ -360,4 +593,67 @@ func fCv(v any) string {
 		return "CScalar " + vStr(x)
 	}
 	return "CNull"
+}
+
+// small ordered tree used to print the ev / cv terms of a CEff case
+type eNode struct {
+	term string
+	kids map[string]*eNode
+}
+
+func (n *eNode) put(path []string, term string) {
+	for _, k := range path {
+		if n.kids == nil {
+			n.kids = map[string]*eNode{}
+		}
+		c := n.kids[k]
+		if c == nil {
+			c = &eNode{}
+			n.kids[k] = c
+		}
+		n = c
+	}
+	n.term = term
+}
+
+func (n *eNode) coq(rec string) string {
+	if n.kids == nil {
+		return n.term
+	}
+	var ks []string
+	for k := range n.kids {
+		ks = append(ks, k)
+	}
+	sort.Strings(ks)
+	it := make([]string, len(ks))
+	for i, k := range ks {
+		it[i] = "(" + vStr(k) + ", " + n.kids[k].coq(rec) + ")"
+	}
+	return rec + " " + vList(it)
+}
+
+// eScalar renders a value found in the effective configuration canonically (durations in ns)
+func eScalar(x any, ok bool, canon string) string {
+	if !ok {
+		return "CNull"
+	}
+	switch y := x.(type) {
+	case time.Duration:
+		return "CScalar " + vStr(strconv.FormatInt(int64(y), 10))
+	case float64:
+		return "CScalar " + vStr(strconv.FormatFloat(y, 'g', -1, 64))
+	case float32:
+		return "CScalar " + vStr(strconv.FormatFloat(float64(y), 'g', -1, 64))
+	case string:
+		if canon != "" && y != canon && fSameDuration(y, canon) {
+			return "CScalar " + vStr(canon)
+		}
+		for _, c := range y {
+			if c < 32 || c > 126 || c == '"' {
+				return "CScalar " + vStr("<unprintable>")
+			}
+		}
+		return "CScalar " + vStr(y)
+	}
+	return "CScalar " + vStr(fmt.Sprint(x))
 }
